@@ -60,11 +60,11 @@ def validate(pid, traces, tag, V, shards=8):
             for li in parse_set(st.get("badl", "{}")):
                 lf = P["leaves"][li - 1]
                 V.add("num/leaf/%s/%s" % (lf["spec"]["t"], lf["o"]), "program %s: leaf %d %s rejected by NumVM.tla" % (P["key"], li, json.dumps(lf)[:400]),
-                      {"engine": "num", "event": {"key": P["key"], "leaves": P["leaves"][:li], "steps": []}})
+                      {"engine": "num", "event": {"key": P["key"], "leaves": P["leaves"][:li], "steps": []}}, src=p)
             for s in parse_set(st.get("bads", "{}"))[:6]:
                 stp = P["steps"][s - 1]
                 V.add(step_key(P, s), "program %s: step %d %s -> %s %s rejected by NumVM.tla" % (P["key"], s, json.dumps(stp["ins"]), stp["o"], json.dumps(stp["res"])[:300]),
-                      {"engine": "num", "event": {"key": P["key"], "leaves": P["leaves"], "steps": P["steps"][:s]}})
+                      {"engine": "num", "event": {"key": P["key"], "leaves": P["leaves"], "steps": P["steps"][:s]}}, src=p)
     return progs, judged, skipped
 
 
